@@ -15,6 +15,9 @@ package main
 import (
 	"encoding/json"
 	"fmt"
+	"os"
+	"path"
+	"path/filepath"
 	"sort"
 	"strings"
 
@@ -206,6 +209,22 @@ func (e *vdrBuildEnc) bindings(where string, m syntax.ResolvedBindingMap) string
 		}
 		e.trefCheck(where+"."+k, b)
 		sb.WriteString(e.binding(b) + " ")
+		if b.Exp.HasRef() {
+			nb := vdrNodeBinding{Exp: e.exp(b.Exp)}
+			seen := map[string]bool{}
+			for _, r := range b.Exp.FindRefs() {
+				key := e.nodeName(r.Id) + "\x00" + r.OutputId
+				if !seen[key] {
+					seen[key] = true
+					nb.Refs = append(nb.Refs, [2]string{e.nodeName(r.Id), r.OutputId})
+				}
+			}
+			node := e.nodeName(where)
+			if e.v.bindEnc[node] == nil {
+				e.v.bindEnc[node] = map[string]vdrNodeBinding{}
+			}
+			e.v.bindEnc[node][k] = nb
+		}
 	}
 	sb.WriteString("e")
 	return sb.String()
@@ -271,6 +290,7 @@ func (v *vdrRun) buildChecks() {
 	if len(nodes) == 0 || types == nil {
 		return
 	}
+	v.bindEnc = map[string]map[string]vdrNodeBinding{}
 	enc := &vdrBuildEnc{v: v, types: types, stats: map[string]int{}}
 	top := map[string]bool{}
 	for _, n := range nodes {
@@ -304,7 +324,7 @@ func (v *vdrRun) buildChecks() {
 			nHolders++
 		}
 	}
-	expect := "wf=true " + strings.Join(parts, " ")
+	expect := "wf=true scoped=true " + strings.Join(parts, " ")
 	v.res.Checks = append(v.res.Checks, VdrModelCheck{Name: "build",
 		Req: []string{"C04.build", tree}, Expect: expect,
 		What: "the fileArgs/filePostNodes tables the real construction (attachToFileParents, setupRetains, buildForks) gave the forks differ from the tables the model builds from the resolved bindings (or the construction order is not well-formed)"})
@@ -377,7 +397,7 @@ func (v *vdrRun) valueChecks(s *vdrSnapshot) {
 	n := 0
 	for i := range s.Forks {
 		f := &s.Forks[i]
-		if f.Kind != "stage" || n >= 24 {
+		if f.Kind != "stage" || n >= 10 {
 			continue
 		}
 		outs, ok := s.Outs[v.rel(f.Path)]
@@ -457,5 +477,92 @@ func (v *vdrRun) checkNewForks() {
 					return o
 				}()})
 		}
+	}
+}
+
+// ---- what the runtime delivers against the model's evaluation semantics
+
+// vdrNodeBinding: a resolved input binding of a node, encoded for the model,
+// with the (node fqname, output id) pairs it refers to.
+type vdrNodeBinding struct {
+	Exp  string
+	Refs [][2]string
+}
+
+// recordedOuts: the values the forks of a node recorded for an output id
+// (projected through the declared types), read from their _outs.
+func (v *vdrRun) recordedOuts(node, outId string) []interface{} {
+	prefix := "ID." + v.r.Opts.Psid + "."
+	if !strings.HasPrefix(node, prefix) {
+		return nil
+	}
+	dir := path.Join(v.psdir, strings.ReplaceAll(strings.TrimPrefix(node, prefix), ".", "/"))
+	forks, _ := filepath.Glob(path.Join(dir, "fork*", "_outs"))
+	sort.Strings(forks)
+	var out []interface{}
+	for _, f := range forks {
+		b, err := os.ReadFile(f)
+		if err != nil {
+			continue
+		}
+		var val interface{}
+		if json.Unmarshal(b, &val) != nil {
+			continue
+		}
+		if outId != "" {
+			val = v.specTypedPath(node, val, outId)
+		}
+		out = append(out, val)
+	}
+	return out
+}
+
+// deliveryCheck (at every launch): every file name in an argument the runtime
+// delivers must be among the names `reach` computes from the recorded outs of
+// the outputs the binding refers to — the run-time resolution delivers
+// nothing the over-approximating semantics `Delivers` cannot.
+func (v *vdrRun) deliveryCheck(job *TAJob) {
+	if v.nReach >= 14 || v.bindEnc == nil || len(job.Args) == 0 {
+		return
+	}
+	node := job.Fqname
+	if i := strings.Index(node, ".fork"); i > 0 {
+		node = node[:i]
+	}
+	binds := v.bindEnc[node]
+	if len(binds) == 0 {
+		return
+	}
+	var args map[string]json.RawMessage
+	if json.Unmarshal(job.Args, &args) != nil {
+		return
+	}
+	params := make([]string, 0, len(binds))
+	for k := range binds {
+		params = append(params, k)
+	}
+	sort.Strings(params)
+	for _, k := range params {
+		raw, ok := args[k]
+		if !ok || !strings.Contains(string(raw), "/") {
+			continue
+		}
+		var val interface{}
+		if json.Unmarshal(raw, &val) != nil {
+			continue
+		}
+		nb := binds[k]
+		var env strings.Builder
+		for _, r := range nb.Refs {
+			for _, x := range v.recordedOuts(r[0], r[1]) {
+				env.WriteString("v " + hx(r[0]) + " " + hx(r[1]) + " " + vdrEncVal(x) + " ")
+			}
+		}
+		env.WriteString("e")
+		v.res.Checks = append(v.res.Checks, VdrModelCheck{Name: "delivers",
+			Req: []string{"C04.reach", nb.Exp, env.String(), vdrEncVal(val)}, Expect: "ok",
+			What: "argument " + k + " of " + job.Key + " (" + string(compactJSON(raw)) + ") names a file that the evaluation semantics of its binding (Delivers/reach) cannot derive from the recorded outs of the referenced outputs"})
+		v.nReach++
+		v.hist("delivery-check")
 	}
 }
